@@ -6,11 +6,13 @@ use super::model::*;
 pub struct Cur<'a> {
     pub b: &'a [u8],
     pub p: usize,
+    /// (position, encoded length, value) of every varint read: the parse tree's length / count fields
+    pub marks: Vec<(usize, usize, u64)>,
 }
 
 impl<'a> Cur<'a> {
     pub fn new(b: &'a [u8]) -> Self {
-        Cur { b, p: 0 }
+        Cur { b, p: 0, marks: Vec::new() }
     }
     pub fn take(&mut self, n: usize) -> Option<&'a [u8]> {
         if self.p.checked_add(n)? > self.b.len() {
@@ -33,6 +35,12 @@ impl<'a> Cur<'a> {
         Some(a)
     }
     pub fn varint(&mut self) -> Option<u64> {
+        let start = self.p;
+        let v = self.varint_inner()?;
+        self.marks.push((start, self.p - start, v));
+        Some(v)
+    }
+    fn varint_inner(&mut self) -> Option<u64> {
         match self.u8()? {
             0xff => {
                 let s = self.take(8)?;
@@ -267,4 +275,60 @@ pub fn selftest_ids() -> Result<usize, String> {
         n += 1;
     }
     Ok(n)
+}
+
+/// Structure-aware deviations: every length / count field of the reference parse tree rewritten to each
+/// non-minimal wider form and to value +-1 (minimal form). Calls f for each resulting string.
+pub fn varint_field_deviations(e: &[u8], marks: &[(usize, usize, u64)], f: &mut dyn FnMut(&[u8])) -> u64 {
+    let mut n = 0u64;
+    for &(pos, len, v) in marks {
+        let mut forms: Vec<Vec<u8>> = Vec::new();
+        // wider (non-minimal) forms of the same value
+        if len < 3 && v <= 0xffff {
+            let mut x = vec![0xfd];
+            x.extend_from_slice(&(v as u16).to_le_bytes());
+            forms.push(x);
+        }
+        if len < 5 && v <= 0xffff_ffff {
+            let mut x = vec![0xfe];
+            x.extend_from_slice(&(v as u32).to_le_bytes());
+            forms.push(x);
+        }
+        if len < 9 {
+            let mut x = vec![0xff];
+            x.extend_from_slice(&v.to_le_bytes());
+            forms.push(x);
+        }
+        // neighbouring values in minimal form
+        for w in [v.wrapping_add(1), v.wrapping_sub(1)] {
+            let mut x = Vec::new();
+            super::model::varint(&mut x, w);
+            forms.push(x);
+        }
+        for form in forms {
+            let mut s = Vec::with_capacity(e.len() + 9);
+            s.extend_from_slice(&e[..pos]);
+            s.extend_from_slice(&form);
+            s.extend_from_slice(&e[pos + len..]);
+            f(&s);
+            n += 1;
+        }
+    }
+    n
+}
+
+pub fn tx_marks(b: &[u8]) -> Option<Vec<(usize, usize, u64)>> {
+    let mut c = Cur::new(b);
+    c.tx()?;
+    Some(c.marks)
+}
+pub fn block_marks(b: &[u8]) -> Option<Vec<(usize, usize, u64)>> {
+    let mut c = Cur::new(b);
+    c.block()?;
+    Some(c.marks)
+}
+pub fn header_marks(b: &[u8]) -> Option<Vec<(usize, usize, u64)>> {
+    let mut c = Cur::new(b);
+    c.header()?;
+    Some(c.marks)
 }
